@@ -92,14 +92,19 @@ func (s *Set[T]) SortMerge(lt cmp.LessThan[T]) {
 func (s *Set[T]) forceSetupOrdered() {
 	fun.Invariant.Ok(s.list == nil)
 	s.list = &List[T]{}
+	// index the new elements (as AddCheck does for ordered sets):
+	// otherwise deleting an item later removes it from the hash but
+	// leaves it in the list. The index is rebuilt in a fresh map
+	// rather than updated in place, because an iterator of the
+	// (still unordered) set that was not read to its end may still
+	// be walking the old one.
+	hash := make(Map[T, *Element[T]], len(s.hash))
 	for item := range s.hash {
-		// index the new element (as AddCheck does for ordered
-		// sets): otherwise deleting the item later removes it from
-		// the hash but leaves it in the list.
 		elem := NewElement(item)
 		s.list.Back().Append(elem)
-		s.hash[item] = elem
+		hash[item] = elem
 	}
+	s.hash = hash
 }
 
 // WithLock configures the Set to synchronize operations with this
